@@ -59,7 +59,31 @@ OBSERVERS = {
     'gen': 'def g(n):\n    for i in range(n):\n        yield i * 2\nprint(list(g(5)))\nd = {}\nfor k in "abc":\n    d[k] = 1\nprint(len(d))\n',
 }
 
-SHARED = 'total = 0\nfor i in range(200):\n    total += i * i % 7\nl = [j for j in range(50) if j % 3]\nprint(total, len(l))\ndef f(a, b=2):\n    return a * b\nprint(f(3), f(3, 4))\n'
+SHARED = '''total = 0
+for i in range(200):
+    total += i * i % 7
+l = [j for j in range(50) if j % 3]
+print(total, len(l))
+def f(a, b=2):
+    return a * b
+print(f(3), f(3, 4))
+def boom(k):
+    if k % 3 == 0:
+        raise ValueError(k)
+    return k
+caught = 0
+for k in range(30):
+    try:
+        boom(k)
+    except ValueError:
+        caught += 1
+print(caught)
+def deep(n):
+    if n == 0:
+        return boom(0)
+    return deep(n - 1)
+deep(3)
+'''
 
 
 def obs_of(g, pfx=''):
@@ -67,7 +91,8 @@ def obs_of(g, pfx=''):
         return None
     o = g.get(pfx + 'out', '')
     if g.get(pfx + 'exc'):
-        o += '\n!exc=' + g[pfx + 'exc']
+        # same rendering as observe() in ctx.go: exception type + traceback (function, line) list
+        o += '\n!exc=%s tb=[%s]' % (g[pfx + 'exc'], ' '.join('[%s %d]' % (a, b) for a, b in (g.get(pfx + 'tb') or [])))
     if g.get(pfx + 'cerr'):
         o += '\n!cerr=' + g[pfx + 'cerr']
     if g.get(pfx + 'panic'):
